@@ -374,7 +374,15 @@ func (r *Realm) parseLines(name string, lines []string) (err error) {
 			}
 		}
 
-		p := strings.Split(line, "=")
+		if strings.ContainsAny(line, "{}") || c > 0 {
+			// The start, the end or the inside of a block nested within the realm's block (for example
+			// auth_to_local_names): not a setting of the realm itself.
+			continue
+		}
+		p := strings.SplitN(line, "=", 2)
+		if len(p) != 2 {
+			return InvalidErrorf("realms section line (%s)", line)
+		}
 		key := strings.TrimSpace(strings.ToLower(p[0]))
 		v := strings.TrimSpace(p[1])
 		switch key {
@@ -444,7 +452,11 @@ func parseRealms(lines []string) (realms []Realm, err error) {
 			c--
 			if c == 0 {
 				var r Realm
-				e := r.parseLines(name, lines[start+1:i])
+				var rl []string
+				if start+1 <= i {
+					rl = lines[start+1 : i]
+				}
+				e := r.parseLines(name, rl)
 				if e != nil {
 					if _, ok := e.(UnsupportedDirective); !ok {
 						err = e
